@@ -15,3 +15,11 @@ pub fn check_incoming_htlc_cltv(
 		min_cltv_expiry_delta,
 	)
 }
+
+/// Crate-private timing constants (the library's stated bounds), for the harness oracles.
+pub mod consts {
+	pub use crate::chain::channelmonitor::{
+		CLTV_CLAIM_BUFFER, LATENCY_GRACE_PERIOD_BLOCKS, MAX_BLOCKS_FOR_CONF,
+	};
+	pub use crate::ln::channelmanager::CLTV_FAR_FAR_AWAY;
+}
